@@ -75,9 +75,9 @@ Proof.
   apply lookup_l2_last_lt. intros y H; discriminate.
 Qed.
 
-Lemma reading_lt g tick e sn st : reading g tick e sn = Some st -> c4_lt_W st.
+Lemma reading_lt v g tick e sn st : reading v g tick e sn = Some st -> c4_lt_W st.
 Proof.
-  unfold reading. destruct (g && tick).
+  unfold reading. destruct (g && (tick || fix_l2stop v)).
   - unfold l2_reading.
     destruct (lookup_l2 (l2 sn) (ifx e)) as [u|] eqn:U; destruct (lookup_l2 (l2 sn) (hfx e)) as [d|] eqn:D;
       intros H; inversion H; subst; unfold c4_lt_W; cbn [rxb txb rxp txp fst snd];
@@ -86,54 +86,83 @@ Proof.
   - apply lookup_stats_lt.
 Qed.
 
-(* ---------- applyVPPCounters (repaired): never below the last reported values ---------- *)
+(* ---------- applyVPPCounters: never below the floor (last reported; with fix_sent also last sent) ---------- *)
+Lemma floor_ge_last v e : c4_le (last e) (floor v e).
+Proof.
+  unfold floor. destruct (fix_sent v); unfold c4_le, c4_max, c4_map2; cbn [rxb txb rxp txp]; lia.
+Qed.
+Lemma floor_ge_hw v e : fix_sent v = true -> c4_le (hw e) (floor v e).
+Proof.
+  intros H. unfold floor. rewrite H. unfold c4_le, c4_max, c4_map2; cbn [rxb txb rxp txp]; lia.
+Qed.
+
 Lemma rebase_fields v e st :
-  ifx (rebase v e st) = ifx e /\ last (rebase v e st) = last e /\ pending (rebase v e st) = pending e.
+  ifx (rebase v e st) = ifx e /\ last (rebase v e st) = last e /\ pending (rebase v e st) = pending e /\
+  hw (rebase v e st) = hw e /\ hfx (rebase v e st) = hfx e.
 Proof. unfold rebase. destruct (regressed v e st); cbn; auto. Qed.
 
-Lemma apply_ge e st :
-  c4_lt_W st -> apply_wraps repaired e st = false ->
-  c4_le (last e) (snd (apply repaired e st)).
+Lemma apply_ge v e st :
+  fix_counters v = true -> c4_lt_W st -> apply_wraps v e st = false ->
+  c4_le (floor v e) (snd (apply v e st)).
 Proof.
-  intros (L1 & L2 & L3 & L4) Hw. unfold apply, apply_wraps in *. cbn [snd].
-  unfold rebase in *. destruct (regressed repaired e st) eqn:R.
-  - (* regress: cumulative = reading + last reported, which did not wrap *)
+  intros FC (L1 & L2 & L3 & L4) Hw. unfold apply, apply_wraps in *. cbn [snd].
+  unfold rebase in *. destruct (regressed v e st) eqn:R.
+  - (* regress: cumulative = reading + floor, which did not wrap *)
     apply orb_false_elim in Hw as [_ Hw].
     apply c4_any2_false in Hw as (H1 & H2 & H3 & H4).
+    set (F := floor v e) in *.
     cbn [base prior c4_map2 rxb txb rxp txp c4z] in H1, H2, H3, H4.
     rewrite N.leb_gt, N.sub_0_r in H1, H2, H3, H4.
-    unfold cum, c4_le; cbn [base prior last c4_map2 rxb txb rxp txp c4z].
+    unfold cum, c4_le; cbn [base prior c4_map2 rxb txb rxp txp c4z].
     rewrite !sub64_zero by assumption. rewrite !add64_small by assumption. lia.
-  - (* no regress: the test itself says cumulative >= last reported *)
+  - (* no regress: the test itself says cumulative >= floor *)
     unfold regressed in R. apply orb_false_elim in R as [_ R].
-    cbn [fix_counters repaired andb] in R.
+    rewrite FC in R. cbn [andb] in R.
     apply c4_any2_false in R as (H1 & H2 & H3 & H4).
     rewrite N.ltb_ge in H1, H2, H3, H4. unfold c4_le. auto.
 Qed.
 
-Lemma report_ge g tick e sn :
-  report_wraps repaired g tick e sn = false -> c4_le (last e) (snd (report repaired g tick e sn)).
+Lemma c4_le_trans a b c : c4_le a b -> c4_le b c -> c4_le a c.
+Proof. unfold c4_le. lia. Qed.
+
+Lemma report_ge_floor v g tick e sn :
+  fix_counters v = true -> report_wraps v g tick e sn = false ->
+  c4_le (floor v e) (snd (report v g tick e sn)).
 Proof.
-  unfold report, report_wraps. destruct (reading g tick e sn) as [st|] eqn:L.
-  - intros Hw. apply apply_ge; [eapply reading_lt; exact L | exact Hw].
+  intros FC. unfold report, report_wraps. destruct (reading v g tick e sn) as [st|] eqn:L.
+  - intros Hw. apply apply_ge; [exact FC | eapply reading_lt; exact L | exact Hw].
   - intros _. cbn. unfold c4_le. lia.
+Qed.
+
+Lemma report_ge v g tick e sn :
+  fix_counters v = true -> report_wraps v g tick e sn = false ->
+  c4_le (last e) (snd (report v g tick e sn)).
+Proof.
+  intros FC Hw. eapply c4_le_trans; [apply floor_ge_last | apply report_ge_floor; assumption].
 Qed.
 
 Lemma report_fields v g tick e sn :
   ifx (fst (report v g tick e sn)) = ifx e /\ last (fst (report v g tick e sn)) = last e /\
-  pending (fst (report v g tick e sn)) = pending e.
+  pending (fst (report v g tick e sn)) = pending e /\ hw (fst (report v g tick e sn)) = hw e.
 Proof.
-  unfold report. destruct (reading g tick e sn); cbn [fst apply]; [apply rebase_fields|auto].
+  unfold report. destruct (reading v g tick e sn); cbn [fst apply].
+  - destruct (rebase_fields v e c) as (A & B & C & D & _). auto.
+  - auto.
 Qed.
 
 (* ---------- coupling between the component state and the monitor's ledger ---------- *)
+Section Conformance.
+Variables fs fo fl : bool.
+Local Notation vv := (V fs fo fl).
+
 Definition coupled (s : sst) (m : mst) : Prop :=
   match cache s with
   | None => db s = None /\ inb s = false /\ m = mst0
   | Some e =>
       m_open m = true /\ m_ack m = last e /\ m_pend m = pending e /\ inb s = negb (pending e) /\
+      (fs = true -> m_sent m = hw e) /\
       match db s with
-      | Some d => m_pers m = true /\ last d = last e
+      | Some d => m_pers m = true /\ last d = last e /\ hw d = hw e
       | None => m_pers m = false
       end
   end.
@@ -141,81 +170,91 @@ Definition coupled (s : sst) (m : mst) : Prop :=
 Lemma coupled_init : coupled sst0 mst0.
 Proof. unfold coupled; cbn; auto. Qed.
 
+Lemma ge_floor_intro m c e :
+  m_ack m = last e -> (fs = true -> m_sent m = hw e) -> c4_le (floor vv e) c -> ge_floor fs m c = true.
+Proof.
+  intros A S F. unfold ge_floor. apply andb_true_iff; split.
+  - rewrite A. apply c4_leb_spec. eapply c4_le_trans; [apply floor_ge_last|exact F].
+  - destruct (negb fs) eqn:NF; [reflexivity|]. cbn [orb].
+    assert (E : fs = true) by (apply negb_false_iff; exact NF).
+    rewrite (S E). apply c4_leb_spec.
+    eapply c4_le_trans; [apply (floor_ge_hw vv e); cbn; exact E | exact F].
+Qed.
+
+Ltac fin := cbn [cache db inb m_open m_ack m_pend m_pers m_sent last hw pending negb] in *; repeat split; intuition (try discriminate; auto).
+
 Lemma step_conforms g s m ev :
-  coupled s m -> lstep_wraps repaired g s ev = false ->
-  exists m', mon_step m ev (snd (lstep repaired g s ev)) = Some m' /\ coupled (fst (lstep repaired g s ev)) m'.
+  coupled s m -> lstep_wraps vv g s ev = false ->
+  exists m', mon_step fs m ev (snd (lstep vv g s ev)) = Some m' /\ coupled (fst (lstep vv g s ev)) m'.
 Proof.
   intros C Hw. unfold coupled in C.
   destruct s as [ib ca d]. cbn [cache db inb] in C.
   destruct ca as [e|].
-  - destruct C as (Ho & Ha & Hp & Hi & Hd). subst ib.
-    destruct m as [mo mp mq ma]. cbn [m_open m_ack m_pend m_pers] in *. subst mo ma mq.
+  - destruct C as (Ho & Ha & Hp & Hi & Hs & Hd). subst ib.
+    destruct m as [mo mp mq ma ms]. cbn [m_open m_ack m_pend m_pers m_sent] in *. subst mo ma mq.
     destruct ev as [i h|i h|sn|sn ok| |past]; cbn [lstep lstep_wraps cache inb db] in *.
     + (* Active *)
-      destruct (pending e) eqn:P; cbn [negb fix_active repaired fst snd mon_step m_open].
-      * eexists; split; [reflexivity|]. unfold coupled, confirm; cbn. destruct d; cbn in *; repeat split; intuition auto.
-      * eexists; split; [reflexivity|]. unfold coupled; cbn [cache db inb]. rewrite P.
-        cbn. destruct d; cbn in *; repeat split; intuition auto.
+      destruct (pending e) eqn:P; cbn [negb fix_active V fst snd mon_step m_open].
+      * eexists; split; [reflexivity|]. unfold coupled, confirm; cbn. destruct d; fin.
+      * eexists; split; [reflexivity|]. unfold coupled; cbn [cache db inb]. rewrite P. destruct d; fin.
     + (* Restored *)
       cbn [fst snd mon_step m_open]. eexists; split; [reflexivity|].
-      unfold coupled, confirm; cbn. destruct d; cbn in *; repeat split; intuition auto.
+      unfold coupled, confirm; cbn. destruct d; fin.
     + (* Released *)
-      cbn [fst snd mon_step m_open m_ack].
-      pose proof (report_ge g false e sn Hw) as G. apply c4_leb_spec in G. rewrite G.
-      eexists; split; [reflexivity|]. unfold coupled; cbn; repeat split; auto.
+      cbn [fst snd mon_step m_open].
+      pose proof (report_ge_floor vv g false e sn eq_refl Hw) as G.
+      rewrite (ge_floor_intro (Mst true mp (pending e) (last e) ms) _ e eq_refl Hs G).
+      eexists; split; [reflexivity|]. unfold coupled; cbn; auto.
     + (* Tick *)
       destruct (pending e) eqn:P; cbn [negb] in *.
       * cbn [fst snd mon_step m_open m_pend andb negb]. eexists; split; [reflexivity|].
-        unfold coupled; cbn [cache db inb]. rewrite P. cbn. destruct d; cbn in *; repeat split; intuition auto.
+        unfold coupled; cbn [cache db inb]. rewrite P. destruct d; fin.
       * cbn [andb] in Hw.
-        pose proof (report_ge g true e sn Hw) as G. apply c4_leb_spec in G.
-        pose proof (report_fields repaired g true e sn) as (F1 & F2 & F3).
-        destruct (report repaired g true e sn) as [e' c] eqn:RP. cbn [fst snd] in *.
-        destruct ok; cbn [fst snd mon_step m_open m_pend m_ack andb negb Bool.eqb]; rewrite G.
-        -- eexists; split; [reflexivity|]. unfold coupled; cbn. rewrite F3, P. cbn; repeat split; auto.
-        -- eexists; split; [reflexivity|]. unfold coupled; cbn [cache db inb]. rewrite F2, F3, P.
-           cbn. destruct d; cbn in *; repeat split; intuition auto.
+        pose proof (report_ge_floor vv g true e sn eq_refl Hw) as G.
+        pose proof (report_fields vv g true e sn) as (F1 & F2 & F3 & F4).
+        destruct (report vv g true e sn) as [e0 c] eqn:RP. cbn [fst snd] in *.
+        pose proof (ge_floor_intro (Mst true mp false (last e) ms) c e eq_refl Hs G) as GF.
+        cbn [fix_sent V].
+        assert (EF : fs = true \/ fs = false) by (clear; destruct fs; auto).
+        destruct ok; destruct EF as [EF|EF]; rewrite EF in *;
+          cbn [fst snd mon_step m_open m_pend m_pers m_ack andb negb orb Bool.eqb]; rewrite GF;
+          (eexists; split; [reflexivity|]); unfold coupled; rewrite ?EF; cbn;
+          rewrite ?F2, ?F3, ?F4, ?P, ?orb_true_r, ?orb_false_r; cbn [negb]; try (destruct d; fin); fin.
     + (* Restart *)
       cbn [fst snd mon_step m_open andb]. destruct d as [dd|]; cbn in Hd.
-      * destruct Hd as [Hd1 Hd2]. subst mp. eexists; split; [reflexivity|].
-        unfold coupled; cbn; repeat split; auto.
-      * subst mp. eexists; split; [reflexivity|]. unfold coupled; cbn; repeat split; auto.
+      * destruct Hd as (Hd1 & Hd2 & Hd3). subst mp. eexists; split; [reflexivity|].
+        unfold coupled; cbn. repeat split; auto. intros E. rewrite Hd3. auto.
+      * subst mp. eexists; split; [reflexivity|]. unfold coupled; cbn. auto.
     + (* Prune *)
-      destruct (pending e) eqn:P; destruct past; cbn [andb negb fst snd mon_step m_open m_pend].
-      * eexists; split; [reflexivity|]. unfold coupled; cbn; repeat split; auto.
-      * eexists; split; [reflexivity|]. unfold coupled; cbn [cache db inb]. rewrite P. cbn.
-        destruct d; cbn in *; repeat split; intuition auto.
-      * eexists; split; [reflexivity|]. unfold coupled; cbn [cache db inb]. rewrite P. cbn.
-        destruct d; cbn in *; repeat split; intuition auto.
-      * eexists; split; [reflexivity|]. unfold coupled; cbn [cache db inb]. rewrite P. cbn.
-        destruct d; cbn in *; repeat split; intuition auto.
+      destruct (pending e) eqn:P; destruct past; cbn [andb negb fst snd mon_step m_open m_pend];
+        (eexists; split; [reflexivity|]); unfold coupled; cbn [cache db inb]; rewrite ?P; try (destruct d; fin); fin.
   - destruct C as (Hd & Hi & Hm). subst d ib m.
-    destruct ev as [i h|i h|sn|sn ok| |past]; cbn [lstep lstep_wraps cache inb db fst snd mon_step m_open mst0 fix_stop repaired andb];
-      eexists; (split; [reflexivity|]); unfold coupled; cbn; repeat split; auto.
+    destruct ev as [i h|i h|sn|sn ok| |past]; cbn [lstep lstep_wraps cache inb db fst snd mon_step m_open mst0 fix_stop V andb];
+      eexists; (split; [reflexivity|]); unfold coupled; cbn; repeat split; auto; discriminate.
 Qed.
 
 Lemma run_conforms g evs : forall s m,
-  coupled s m -> lrun_wraps repaired g s evs = false ->
-  exists m', mon_run m (snd (lrun repaired g s evs)) = Some m'.
+  coupled s m -> lrun_wraps vv g s evs = false ->
+  exists m', mon_run fs m (snd (lrun vv g s evs)) = Some m'.
 Proof.
   induction evs as [|ev r IH]; intros s m C Hw; cbn [lrun lrun_wraps] in *.
   - eexists; reflexivity.
   - apply orb_false_elim in Hw as [Hw1 Hw2].
     destruct (step_conforms g s m ev C Hw1) as (m1 & M1 & C1).
-    destruct (lstep repaired g s ev) as [s1 o] eqn:E. cbn [fst snd] in *.
+    destruct (lstep vv g s ev) as [s1 o] eqn:E. cbn [fst snd] in *.
     destruct (IH s1 m1 C1 Hw2) as (m2 & M2).
-    destruct (lrun repaired g s1 r) as [s2 t] eqn:E2. cbn [snd mon_run] in *.
+    destruct (lrun vv g s1 r) as [s2 t] eqn:E2. cbn [snd mon_run] in *.
     rewrite M1. eexists; exact M2.
 Qed.
 
 Lemma conforms g evs :
-  lrun_wraps repaired g sst0 evs = false -> accepted (snd (lrun repaired g sst0 evs)) = true.
+  lrun_wraps vv g sst0 evs = false -> accepted fs (snd (lrun vv g sst0 evs)) = true.
 Proof.
   intros Hw. unfold accepted.
   destruct (run_conforms g evs sst0 mst0 coupled_init Hw) as (m' & M). rewrite M. reflexivity.
 Qed.
+End Conformance.
 
-(* ---------- what acceptance by the monitor means for the plain call stream ---------- *)
 Lemma lrun_events v g evs : forall s, map fst (snd (lrun v g s evs)) = evs.
 Proof.
   induction evs as [|ev r IH]; intros s; cbn [lrun]; [reflexivity|].
@@ -223,162 +262,373 @@ Proof.
   destruct (lrun v g s1 r) as [s2 t]. cbn in *. f_equal. exact IH.
 Qed.
 
+(* ---------- what acceptance by the monitor means for the plain call stream ---------- *)
+Ltac break_if H :=
+  repeat match type of H with
+  | context [if ?x then _ else _] => let E := fresh "E" in destruct x eqn:E; try discriminate
+  | context [match ?x with _ => _ end] => let E := fresh "E" in destruct x eqn:E; try discriminate
+  end.
+
+Lemma ge_floor_ack fs m c : ge_floor fs m c = true -> c4_leb (m_ack m) c = true.
+Proof. unfold ge_floor. rewrite andb_true_iff. tauto. Qed.
+Lemma ge_floor_sent m c : ge_floor true m c = true -> c4_leb (m_sent m) c = true.
+Proof. unfold ge_floor. rewrite andb_true_iff. cbn. tauto. Qed.
+
+Ltac mon_start t IH M NP Hi St :=
+  induction t as [|[ev o] r IH]; intros m m' x M NP Hi; [reflexivity|];
+  cbn [mon_run] in M; destruct (mon_step _ m ev o) as [m1|] eqn:St; [|discriminate];
+  cbn [map fst no_prune never_restored forallb] in NP;
+  unfold outputs in *; cbn [flat_map snd];
+  destruct m as [mo mp mq ma ms];
+  destruct ev as [i h|i h|sn|sn ok| |past]; cbn [mon_step m_open m_pers m_pend m_ack m_sent] in St;
+  break_if St; inversion St; subst; clear St.
+
+Ltac no_prune_case :=
+  try (match goal with H : (if ?p then false else true) = true |- _ => destruct p; [discriminate H|] end);
+  try (match goal with H : _ && false = true |- _ => rewrite andb_false_r in H; discriminate H end).
+
 (* a Start is only ever sent when the ledger is closed; inside => open and persisted *)
-Lemma mon_bracketed t : forall m m' inside,
-  mon_run m t = Some m' -> no_prune (map fst t) = true ->
+Lemma mon_bracketed fs t : forall m m' inside,
+  mon_run fs m t = Some m' -> no_prune (map fst t) = true ->
   (inside = true -> m_open m = true /\ m_pers m = true) ->
   bracketed inside (outputs t) = true.
 Proof.
-  induction t as [|[ev o] r IH]; intros m m' inside M NP I; [reflexivity|].
-  cbn [mon_run] in M. destruct (mon_step m ev o) as [m1|] eqn:S; [|discriminate].
-  cbn [map fst no_prune forallb] in NP. apply andb_true_iff in NP as [NP1 NP2].
-  unfold outputs in *. cbn [flat_map snd].
-  destruct m as [mo mp mq ma].
-  destruct ev as [i h|i h|sn|sn ok| |past]; cbn [mon_step m_open m_pers m_pend m_ack] in S.
-  - destruct mo.
-    + destruct o; [|discriminate]. inversion S; subst. cbn [app].
-      eapply IH; [exact M|exact NP2|]. intros Hi. destruct (I Hi) as [_ Hp]. cbn in *. auto.
-    + destruct o as [|[| |] [|]]; try discriminate. inversion S; subst. cbn [app bracketed].
-      destruct inside; [destruct (I eq_refl); discriminate|].
-      eapply IH; [exact M|exact NP2|]. cbn; auto.
-  - destruct o; [|discriminate]. cbn [app]. destruct mo; inversion S; subst.
-    + eapply IH; [exact M|exact NP2|]. intros Hi. destruct (I Hi). cbn in *; auto.
-    + eapply IH; [exact M|exact NP2|]. intros Hi. destruct (I Hi). discriminate.
-  - destruct mo.
-    + destruct o as [|[| |c] [|]]; try discriminate. destruct (c4_leb ma c); [|discriminate].
-      inversion S; subst. cbn [app bracketed]. eapply IH; [exact M|exact NP2|]. discriminate.
-    + destruct o; [|discriminate]. inversion S; subst. cbn [app].
-      eapply IH; [exact M|exact NP2|]. intros Hi. destruct (I Hi). discriminate.
-  - destruct (mo && negb mq) eqn:G.
-    + destruct o as [|[|c ok'|] [|]]; try discriminate.
-      destruct (Bool.eqb ok ok' && c4_leb ma c); [|discriminate].
-      cbn [app bracketed]. inversion S; subst.
-      eapply IH; [exact M|exact NP2|]. intros Hi. destruct (I Hi). cbn in *. subst.
-      destruct ok; cbn; auto.
-    + destruct o; [|discriminate]. inversion S; subst. cbn [app].
-      eapply IH; [exact M|exact NP2|exact I].
-  - destruct o; [|discriminate]. cbn [app]. destruct (mo && mp) eqn:G; inversion S; subst.
-    + eapply IH; [exact M|exact NP2|]. intros Hi. cbn. auto.
-    + eapply IH; [exact M|exact NP2|]. intros Hi. destruct (I Hi). cbn in *. subst. discriminate.
-  - destruct o; [|discriminate]. cbn [app]. destruct past; [discriminate|].
-    rewrite andb_false_r in S. inversion S; subst.
-    eapply IH; [exact M|exact NP2|exact I].
+  mon_start t IH HM NP Hi St; apply andb_true_iff in NP as [NP1 NP2]; try discriminate; no_prune_case;
+  cbn [app bracketed];
+  try (destruct x; [destruct (Hi eq_refl); discriminate|]);
+  (eapply IH; [exact HM|exact NP2|]); cbn [m_open m_pers]; intros Hx; try discriminate;
+  try (destruct (Hi Hx) as [I1 I2]; cbn [m_open m_pers] in I1, I2); subst;
+  try discriminate; rewrite ?orb_true_l, ?orb_true_r; auto.
 Qed.
 
 (* Stops: not armed => the ledger is closed *)
-Lemma mon_stops t : forall m m' armed,
-  mon_run m t = Some m' -> (armed = false -> m_open m = false) -> stops_ok armed t = true.
+Lemma mon_stops fs t : forall m m' armed,
+  mon_run fs m t = Some m' -> True -> (armed = false -> m_open m = false) -> stops_ok armed t = true.
 Proof.
-  induction t as [|[ev o] r IH]; intros m m' armed M A; [reflexivity|].
-  cbn [mon_run] in M. destruct (mon_step m ev o) as [m1|] eqn:S; [|discriminate].
-  cbn [stops_ok].
-  destruct m as [mo mp mq ma].
-  destruct ev as [i h|i h|sn|sn ok| |past]; cbn [mon_step m_open m_pers m_pend m_ack] in S.
-  - destruct mo.
-    + destruct o; [|discriminate]. inversion S; subst. cbn. eapply IH; [exact M|]. discriminate.
-    + destruct o as [|[| |] [|]]; try discriminate. inversion S; subst. cbn.
-      eapply IH; [exact M|]. discriminate.
-  - destruct o; [|discriminate]. cbn. eapply IH; [exact M|]. discriminate.
-  - destruct mo.
-    + destruct o as [|[| |c] [|]]; try discriminate. destruct (c4_leb ma c); [|discriminate].
-      inversion S; subst. cbn. destruct armed; [|specialize (A eq_refl); discriminate].
-      cbn. eapply IH; [exact M|]. reflexivity.
-    + destruct o; [|discriminate]. inversion S; subst. cbn.
-      destruct armed; cbn; (eapply IH; [exact M|]); reflexivity.
-  - destruct (mo && negb mq) eqn:G.
-    + destruct o as [|[|c ok'|] [|]]; try discriminate.
-      destruct (Bool.eqb ok ok' && c4_leb ma c); [|discriminate]. inversion S; subst. cbn.
-      eapply IH; [exact M|]. intros Ha. specialize (A Ha). cbn in A. subst. discriminate.
-    + destruct o; [|discriminate]. inversion S; subst. cbn. eapply IH; [exact M|exact A].
-  - destruct o; [|discriminate]. cbn. destruct (mo && mp) eqn:G; inversion S; subst.
-    + eapply IH; [exact M|]. intros Ha. specialize (A Ha). cbn in A. subst. discriminate.
-    + eapply IH; [exact M|]. reflexivity.
-  - destruct o; [|discriminate]. cbn. destruct (mo && mq && past) eqn:G; inversion S; subst.
-    + eapply IH; [exact M|]. reflexivity.
-    + eapply IH; [exact M|exact A].
+  induction t as [|[ev o] r IH]; intros m m' x HM _ Hi; [reflexivity|].
+  cbn [mon_run] in HM. destruct (mon_step _ m ev o) as [m1|] eqn:St; [|discriminate].
+  cbn [stops_ok]. destruct m as [mo mp mq ma ms].
+  destruct ev as [i h|i h|sn|sn ok| |past]; cbn [mon_step m_open m_pers m_pend m_ack m_sent] in St;
+  break_if St; inversion St; subst; clear St; cbn [filter length Nat.eqb Nat.leb andb];
+  try (destruct x; [|specialize (Hi eq_refl); discriminate]); cbn [Nat.leb Nat.eqb andb];
+  try (destruct x; cbn [Nat.leb Nat.eqb andb]);
+  (eapply IH; [exact HM|exact I|]); cbn [m_open]; intros Hx; try discriminate; try reflexivity;
+  try (specialize (Hi Hx); cbn [m_open] in Hi); subst; try discriminate; auto;
+  try (match goal with H : true && _ = _ |- _ => cbn in H end); try discriminate.
 Qed.
 
-(* monotone: open => prev is the acknowledged value (zero while nothing is persisted); closed => prev = 0 *)
+Ltac norm_hyps := repeat match goal with
+  | H : _ && _ = true |- _ => apply andb_true_iff in H; destruct H
+  | H : Bool.eqb _ _ = true |- _ => apply Bool.eqb_prop in H; subst
+  | H : negb _ = true |- _ => apply negb_true_iff in H; subst
+  end.
+
+(* acknowledged floor: open => prev is the acknowledged value (zero while nothing is persisted); closed => prev = 0 *)
 Definition mono_inv (m : mst) (prev : c4) : Prop :=
   if m_open m then prev = m_ack m /\ (m_pers m = false -> m_ack m = c4z) else prev = c4z.
 
-Lemma mon_monotone t : forall m m' prev,
-  mon_run m t = Some m' -> no_prune (map fst t) = true -> mono_inv m prev ->
+Lemma mon_monotone fs t : forall m m' prev,
+  mon_run fs m t = Some m' -> no_prune (map fst t) = true -> mono_inv m prev ->
   nondecreasing prev (outputs t) = true.
 Proof.
-  induction t as [|[ev o] r IH]; intros m m' prev M NP I; [reflexivity|].
-  cbn [mon_run] in M. destruct (mon_step m ev o) as [m1|] eqn:S; [|discriminate].
-  cbn [map fst no_prune forallb] in NP. apply andb_true_iff in NP as [NP1 NP2].
-  unfold outputs in *. cbn [flat_map snd].
-  destruct m as [mo mp mq ma]. unfold mono_inv in I. cbn [m_open m_ack m_pers] in I.
-  destruct ev as [i h|i h|sn|sn ok| |past]; cbn [mon_step m_open m_pers m_pend m_ack] in S.
-  - destruct mo.
-    + destruct o; [|discriminate]. inversion S; subst. cbn [app].
-      eapply IH; [exact M|exact NP2|]. unfold mono_inv; cbn; auto.
-    + destruct o as [|[| |] [|]]; try discriminate. inversion S; subst. cbn [app nondecreasing].
-      eapply IH; [exact M|exact NP2|]. unfold mono_inv; cbn. auto.
-  - destruct o; [|discriminate]. cbn [app]. destruct mo; inversion S; subst.
-    + eapply IH; [exact M|exact NP2|]. unfold mono_inv; cbn; auto.
-    + eapply IH; [exact M|exact NP2|]. unfold mono_inv; cbn. auto.
-  - destruct mo.
-    + destruct o as [|[| |c] [|]]; try discriminate. destruct (c4_leb ma c) eqn:G; [|discriminate].
-      inversion S; subst. cbn [app nondecreasing]. destruct I as [I1 I2]. subst prev. rewrite G. cbn [andb].
-      eapply IH; [exact M|exact NP2|]. unfold mono_inv; cbn. reflexivity.
-    + destruct o; [|discriminate]. inversion S; subst. cbn [app].
-      eapply IH; [exact M|exact NP2|]. unfold mono_inv; cbn; auto.
-  - destruct (mo && negb mq) eqn:G.
-    + destruct o as [|[|c ok'|] [|]]; try discriminate.
-      destruct (Bool.eqb ok ok') eqn:EQ; [|discriminate]. apply Bool.eqb_prop in EQ. subst ok'.
-      destruct (c4_leb ma c) eqn:G2; [|discriminate]. cbn [andb] in S. inversion S; subst.
-      apply andb_true_iff in G as [G _]. subst mo. destruct I as [I1 I2]. subst prev.
-      cbn [app nondecreasing]. rewrite G2. cbn [andb].
-      eapply IH; [exact M|exact NP2|]. destruct ok; unfold mono_inv; cbn; auto.
-      split; [reflexivity|discriminate].
-    + destruct o; [|discriminate]. inversion S; subst. cbn [app].
-      eapply IH; [exact M|exact NP2|]. unfold mono_inv; cbn; auto.
-  - destruct o; [|discriminate]. cbn [app]. destruct mo, mp; cbn [andb] in S; inversion S; subst.
-    + eapply IH; [exact M|exact NP2|]. unfold mono_inv; cbn; auto.
-    + eapply IH; [exact M|exact NP2|]. unfold mono_inv; cbn. destruct I as [I1 I2]. rewrite I1. auto.
-    + eapply IH; [exact M|exact NP2|]. unfold mono_inv; cbn; auto.
-    + eapply IH; [exact M|exact NP2|]. unfold mono_inv; cbn; auto.
-  - destruct o; [|discriminate]. cbn [app]. destruct past; [discriminate|].
-    rewrite andb_false_r in S. inversion S; subst.
-    eapply IH; [exact M|exact NP2|]. unfold mono_inv; cbn; auto.
+  mon_start t IH HM NP Hi St; apply andb_true_iff in NP as [NP1 NP2]; try discriminate; no_prune_case; norm_hyps;
+  unfold mono_inv in Hi; cbn [m_open m_ack m_pers] in Hi;
+  cbn [app nondecreasing];
+  try (match goal with H : ge_floor _ _ _ = true |- _ => pose proof (ge_floor_ack _ _ _ H) as GA; cbn [m_ack] in GA end);
+  try (destruct Hi as [Hi1 Hi2]; subst x); rewrite ?GA; cbn [andb];
+  (eapply IH; [exact HM|exact NP2|]); unfold mono_inv; cbn [m_open m_ack m_pers];
+  repeat match goal with b : bool |- _ => destruct b end; cbn; auto; try discriminate;
+  try (split; [reflexivity|intros; try discriminate; auto]);
+  try (destruct Hi as [Hi1 Hi2]; rewrite Hi1; auto).
 Qed.
 
-(* ---------- the three plain statements for the repaired component ---------- *)
-Lemma accepted_run t : accepted t = true -> exists m', mon_run mst0 t = Some m'.
-Proof. unfold accepted. destruct (mon_run mst0 t); [eauto|discriminate]. Qed.
+(* sent floor (fix_sent): open => prev is the last value sent (zero while nothing is persisted); closed => 0 *)
+Definition sent_inv (m : mst) (prev : c4) : Prop :=
+  if m_open m then prev = m_sent m /\ (m_pers m = false -> m_sent m = c4z) else prev = c4z.
+
+Lemma mon_monotone_sent t : forall m m' prev,
+  mon_run true m t = Some m' -> no_prune (map fst t) = true -> sent_inv m prev ->
+  nondecreasing_sent prev (outputs t) = true.
+Proof.
+  mon_start t IH HM NP Hi St; apply andb_true_iff in NP as [NP1 NP2]; try discriminate; no_prune_case; norm_hyps;
+  unfold sent_inv in Hi; cbn [m_open m_sent m_pers] in Hi;
+  cbn [app nondecreasing_sent];
+  try (match goal with H : ge_floor _ _ _ = true |- _ => pose proof (ge_floor_sent _ _ H) as GA; cbn [m_sent] in GA end);
+  try (destruct Hi as [Hi1 Hi2]; subst x); rewrite ?GA; cbn [andb];
+  (eapply IH; [exact HM|exact NP2|]); unfold sent_inv; cbn [m_open m_sent m_pers];
+  repeat match goal with b : bool |- _ => destruct b end; cbn; auto; try discriminate;
+  try (split; [reflexivity|intros; try discriminate; auto]);
+  try (destruct Hi as [Hi1 Hi2]; rewrite Hi1; auto).
+Qed.
+
+(* a never-restored session: the stream is strictly bracketed; opened <-> the ledger is open (and then persisted) *)
+Lemma mon_strict fs t : forall m m' opened,
+  mon_run fs m t = Some m' -> no_prune (map fst t) && never_restored (map fst t) = true ->
+  (opened = m_open m /\ (m_open m = true -> m_pers m = true)) ->
+  strict opened (outputs t) = true.
+Proof.
+  induction t as [|[ev o] r IH]; intros m m' x HM NP Hi; [reflexivity|].
+  cbn [mon_run] in HM. destruct (mon_step _ m ev o) as [m1|] eqn:St; [|discriminate].
+  apply andb_true_iff in NP as [NPa NPb].
+  cbn [map fst no_prune never_restored forallb] in NPa, NPb.
+  apply andb_true_iff in NPa as [NP1 NPa]. apply andb_true_iff in NPb as [NR1 NPb].
+  unfold outputs in *. cbn [flat_map snd]. destruct m as [mo mp mq ma ms].
+  destruct Hi as [Hi1 Hi2]. cbn [m_open m_pers m_pend] in Hi1, Hi2. subst x.
+  destruct ev as [i h|i h|sn|sn ok| |past]; cbn [mon_step m_open m_pers m_pend m_ack m_sent] in St;
+  try discriminate; break_if St; inversion St; subst; clear St; no_prune_case; norm_hyps;
+  try (specialize (Hi2 eq_refl)); subst;
+  cbn [app strict andb];
+  try (match goal with H : true && _ = false |- _ => cbn [andb] in H end); try discriminate;
+  try (match goal with H : ?a && ?b = false, H2 : ?a = true -> ?b = true |- _ =>
+         destruct a; [rewrite (H2 eq_refl) in H; discriminate H|] end);
+  (eapply IH; [exact HM| apply andb_true_iff; split; [exact NPa|exact NPb] |]); cbn [m_open m_pers m_pend];
+  (split; [reflexivity| intros; try discriminate; rewrite ?orb_true_l, ?orb_true_r; auto]).
+Qed.
+
+(* ---------- the plain statements, for /repo HEAD and for every subset of the open repairs ---------- *)
+Lemma accepted_run fs t : accepted fs t = true -> exists m', mon_run fs mst0 t = Some m'.
+Proof. unfold accepted. destruct (mon_run fs mst0 t); [eauto|discriminate]. Qed.
+
+Section Plain.
+Variables fs fo fl : bool.
+Local Notation vv := (V fs fo fl).
 
 Lemma start_once g evs :
-  lrun_wraps repaired g sst0 evs = false -> no_prune evs = true ->
-  bracketed false (outputs (snd (lrun repaired g sst0 evs))) = true.
+  lrun_wraps vv g sst0 evs = false -> no_prune evs = true ->
+  bracketed false (outputs (snd (lrun vv g sst0 evs))) = true.
 Proof.
-  intros Hw NP. destruct (accepted_run _ (conforms g evs Hw)) as (m' & M).
+  intros Hw NP. destruct (accepted_run _ _ (conforms fs fo fl g evs Hw)) as (m' & M).
   eapply mon_bracketed; [exact M| rewrite lrun_events; exact NP | discriminate].
 Qed.
 
 Lemma stop_once g evs :
-  lrun_wraps repaired g sst0 evs = false ->
-  stops_ok false (snd (lrun repaired g sst0 evs)) = true.
+  lrun_wraps vv g sst0 evs = false ->
+  stops_ok false (snd (lrun vv g sst0 evs)) = true.
 Proof.
-  intros Hw. destruct (accepted_run _ (conforms g evs Hw)) as (m' & M).
-  eapply mon_stops; [exact M | reflexivity].
+  intros Hw. destruct (accepted_run _ _ (conforms fs fo fl g evs Hw)) as (m' & M).
+  eapply mon_stops; [exact M | exact I | reflexivity].
 Qed.
 
 Lemma monotone g evs :
-  lrun_wraps repaired g sst0 evs = false -> no_prune evs = true ->
-  nondecreasing c4z (outputs (snd (lrun repaired g sst0 evs))) = true.
+  lrun_wraps vv g sst0 evs = false -> no_prune evs = true ->
+  nondecreasing c4z (outputs (snd (lrun vv g sst0 evs))) = true.
 Proof.
-  intros Hw NP. destruct (accepted_run _ (conforms g evs Hw)) as (m' & M).
+  intros Hw NP. destruct (accepted_run _ _ (conforms fs fo fl g evs Hw)) as (m' & M).
   eapply mon_monotone; [exact M| rewrite lrun_events; exact NP | unfold mono_inv; cbn; reflexivity].
 Qed.
 
+Lemma strict_issued g evs :
+  lrun_wraps vv g sst0 evs = false -> no_prune evs = true -> never_restored evs = true ->
+  strict false (outputs (snd (lrun vv g sst0 evs))) = true.
+Proof.
+  intros Hw NP NR. destruct (accepted_run _ _ (conforms fs fo fl g evs Hw)) as (m' & M).
+  eapply mon_strict; [exact M| rewrite lrun_events, NP, NR; reflexivity | cbn; split; [reflexivity|discriminate]].
+Qed.
+End Plain.
+
+(* with the high-water mark of sent values: never below the last report SENT *)
+Lemma monotone_sent fo fl g evs :
+  lrun_wraps (V true fo fl) g sst0 evs = false -> no_prune evs = true ->
+  nondecreasing_sent c4z (outputs (snd (lrun (V true fo fl) g sst0 evs))) = true.
+Proof.
+  intros Hw NP. destruct (accepted_run _ _ (conforms true fo fl g evs Hw)) as (m' & M).
+  eapply mon_monotone_sent; [exact M| rewrite lrun_events; exact NP | unfold sent_inv; cbn; reflexivity].
+Qed.
+
+(* without it (HEAD): the same, as long as every Interim was acknowledged *)
+Definition interims_acked (l : list out) : bool :=
+  forallb (fun o => match o with Interim _ false => false | _ => true end) l.
+
+Lemma sent_eq_acked l : forall prev,
+  interims_acked l = true -> nondecreasing_sent prev l = nondecreasing prev l.
+Proof.
+  induction l as [|o r IH]; intros prev H; [reflexivity|].
+  cbn [interims_acked forallb] in H. apply andb_true_iff in H as [H1 H2].
+  destruct o as [|c k|c]; cbn [nondecreasing_sent nondecreasing].
+  - apply IH; exact H2.
+  - destruct k; [|discriminate]. rewrite (IH c H2). reflexivity.
+  - rewrite (IH c4z H2). reflexivity.
+Qed.
+
+Lemma lstep_interims_acked v g s ev :
+  match ev with ETick _ false => False | _ => True end -> interims_acked (snd (lstep v g s ev)) = true.
+Proof.
+  destruct ev as [i h|i h|sn|sn ok| |past]; intros H; cbn [lstep].
+  - destruct (inb s); [reflexivity|]. destruct (cache s); [destruct (fix_active v)|]; reflexivity.
+  - destruct (cache s); reflexivity.
+  - destruct (cache s); [reflexivity|]. destruct (fix_stop v); reflexivity.
+  - destruct ok; [|contradiction]. destruct (inb s); [|reflexivity]. destruct (cache s) as [e|]; [|reflexivity].
+    destruct (report v g true e sn). reflexivity.
+  - reflexivity.
+  - destruct (cache s) as [e|]; [|reflexivity]. destruct (pending e && past); reflexivity.
+Qed.
+
+Lemma interims_acked_app a b : interims_acked (a ++ b) = interims_acked a && interims_acked b.
+Proof. unfold interims_acked. apply forallb_app. Qed.
+
+Lemma lrun_interims_acked v g evs : forall s,
+  all_acked evs = true -> interims_acked (outputs (snd (lrun v g s evs))) = true.
+Proof.
+  induction evs as [|ev r IH]; intros s H; [reflexivity|].
+  cbn [all_acked forallb] in H. apply andb_true_iff in H as [H1 H2].
+  cbn [lrun]. pose proof (lstep_interims_acked v g s ev) as L.
+  destruct (lstep v g s ev) as [s1 o]. specialize (IH s1 H2).
+  destruct (lrun v g s1 r) as [s2 t]. unfold outputs in *. cbn [snd flat_map] in *.
+  rewrite interims_acked_app, IH, andb_true_r. apply L.
+  destruct ev as [| | |sn ok| |]; auto. destruct ok; [auto|discriminate].
+Qed.
+
+Lemma monotone_sent_if_acked fs fo fl g evs :
+  lrun_wraps (V fs fo fl) g sst0 evs = false -> no_prune evs = true -> all_acked evs = true ->
+  nondecreasing_sent c4z (outputs (snd (lrun (V fs fo fl) g sst0 evs))) = true.
+Proof.
+  intros Hw NP AA. rewrite sent_eq_acked by (apply lrun_interims_acked; exact AA).
+  apply monotone; assumption.
+Qed.
+
+(* ---------- asynchronous delivery ---------- *)
+Lemma issue_ordered v hs : fix_order v = true -> forall os held,
+  (held = [] -> snd (issue v hs held os) ++ fst (issue v hs held os) = os) /\
+  (held <> [] -> snd (issue v hs held os) = [] /\ fst (issue v hs held os) = held ++ os).
+Proof.
+  intros FO. induction os as [|o r IH]; intros held; cbn [issue].
+  - split; intros H; cbn; [subst; reflexivity | rewrite app_nil_r; auto].
+  - unfold issue1. rewrite FO.
+    destruct held as [|h0 hr].
+    + cbn [is_nil negb orb]. destruct (delayed hs o).
+      * destruct (IH ([] ++ [o])) as [_ B]. destruct (issue v hs ([] ++ [o]) r) as [h2 a2] eqn:E. cbn [fst snd] in *.
+        destruct (B ltac:(discriminate)) as [B1 B2]. subst. split; [intros _; reflexivity | intros C; contradiction].
+      * destruct (IH []) as [A _]. destruct (issue v hs [] r) as [h2 a2] eqn:E. cbn [fst snd] in *.
+        split; [intros _; cbn; f_equal; apply A; reflexivity | intros C; contradiction].
+    + cbn [is_nil negb orb].
+      destruct (IH ((h0 :: hr) ++ [o])) as [_ B]. destruct (issue v hs ((h0 :: hr) ++ [o]) r) as [h2 a2] eqn:E.
+      cbn [fst snd] in *. destruct (B ltac:(discriminate)) as [B1 B2]. subst.
+      split; [intros C; discriminate | intros _; split; [reflexivity| rewrite <- app_assoc; reflexivity]].
+Qed.
+
+(* ordered delivery: what has arrived, followed by what is still held, is exactly what was issued, in order *)
+Lemma drun_ordered v g : fix_order v = true -> forall xs d A0 I0,
+  A0 ++ d_held d = I0 ->
+  let '(d', iss, arr) := drun v g d xs in (A0 ++ arr) ++ d_held d' = I0 ++ iss.
+Proof.
+  intros FO. induction xs as [|x r IH]; intros d A0 I0 H; cbn [drun].
+  - rewrite !app_nil_r. exact H.
+  - destruct x as [ev|hs|]; cbn [dstep].
+    + destruct (lstep v g (d_comp d) ev) as [s' os].
+      pose proof (issue_ordered v (d_hs d) FO os (d_held d)) as [P1 P2].
+      destruct (issue v (d_hs d) (d_held d) os) as [h' arr] eqn:E. cbn [fst snd] in *.
+      specialize (IH (Dst s' (d_hs d) h') (A0 ++ arr) (I0 ++ os)).
+      destruct (drun v g (Dst s' (d_hs d) h') r) as [[d2 i2] a2].
+      rewrite !app_assoc. rewrite <- (app_assoc A0 arr a2). rewrite (app_assoc A0 arr a2).
+      apply IH. cbn [d_held]. subst I0.
+      destruct (d_held d) as [|h0 hr] eqn:EH.
+      * rewrite app_nil_r. rewrite <- app_assoc. f_equal. apply P1; reflexivity.
+      * destruct (P2 ltac:(discriminate)) as [Q1 Q2]. subst. rewrite app_nil_r, app_assoc. reflexivity.
+    + specialize (IH (Dst (d_comp d) hs (d_held d)) A0 I0 H).
+      destruct (drun v g (Dst (d_comp d) hs (d_held d)) r) as [[d2 i2] a2]. cbn [app]. exact IH.
+    + specialize (IH (Dst (d_comp d) (d_hs d) []) (A0 ++ d_held d) I0).
+      destruct (drun v g (Dst (d_comp d) (d_hs d) []) r) as [[d2 i2] a2]. cbn [app].
+      rewrite app_assoc. apply IH. cbn [d_held]. rewrite app_nil_r. exact H.
+Qed.
+
+(* the calls issued do not depend on delivery *)
+Lemma drun_issued v g : forall xs d,
+  snd (fst (drun v g d xs)) = outputs (snd (lrun v g (d_comp d) (dev_events xs))).
+Proof.
+  induction xs as [|x r IH]; intros d; cbn [drun dev_events flat_map]; [reflexivity|].
+  destruct x as [ev|hs|]; cbn [dstep app].
+  - destruct (lstep v g (d_comp d) ev) as [s' os] eqn:E1.
+    destruct (issue v (d_hs d) (d_held d) os) as [h' arr].
+    specialize (IH (Dst s' (d_hs d) h')). cbn [d_comp] in IH.
+    destruct (drun v g (Dst s' (d_hs d) h') r) as [[d2 i2] a2]. cbn [fst snd] in *.
+    cbn [lrun app]. rewrite E1. unfold dev_events in *. destruct (lrun v g s' (flat_map _ r)) as [s2 t]. unfold outputs in *. cbn [snd flat_map] in *.
+    rewrite IH. reflexivity.
+  - specialize (IH (Dst (d_comp d) hs (d_held d))). cbn [d_comp] in IH.
+    destruct (drun v g (Dst (d_comp d) hs (d_held d)) r) as [[d2 i2] a2]. cbn [fst snd app] in *. exact IH.
+  - specialize (IH (Dst (d_comp d) (d_hs d) [])). cbn [d_comp] in IH.
+    destruct (drun v g (Dst (d_comp d) (d_hs d) []) r) as [[d2 i2] a2]. cbn [fst snd app] in *. exact IH.
+Qed.
+
+Lemma strict_prefix a : forall b h, strict b (a ++ h) = true -> strict b a = true.
+Proof.
+  induction a as [|o r IH]; intros b h H; [reflexivity|]. cbn [app strict] in *.
+  destruct o as [|c k|c].
+  - destruct b; [discriminate|]. eapply IH; exact H.
+  - apply andb_true_iff in H as [H1 H2]. rewrite H1. cbn. eapply IH; exact H2.
+  - apply andb_true_iff in H as [H1 H2]. rewrite H1. cbn. eapply IH; exact H2.
+Qed.
+
+Lemma sent_prefix a : forall p h, nondecreasing_sent p (a ++ h) = true -> nondecreasing_sent p a = true.
+Proof.
+  induction a as [|o r IH]; intros p h H; [reflexivity|]. cbn [app nondecreasing_sent] in *.
+  destruct o as [|c k|c].
+  - eapply IH; exact H.
+  - apply andb_true_iff in H as [H1 H2]. rewrite H1. cbn. eapply IH; exact H2.
+  - apply andb_true_iff in H as [H1 H2]. rewrite H1. cbn. eapply IH; exact H2.
+Qed.
+
+(* with ordered delivery the stream ARRIVING at the provider is a prefix of the stream issued *)
+Lemma arrived_prefix fs fl g xs :
+  let '(d', iss, arr) := drun (V fs true fl) g dst0 xs in arr ++ d_held d' = iss.
+Proof.
+  pose proof (drun_ordered (V fs true fl) g eq_refl xs dst0 [] [] eq_refl) as H.
+  destruct (drun (V fs true fl) g dst0 xs) as [[d' iss] arr]. cbn [app] in H. exact H.
+Qed.
+
+Lemma delivered_strict fs fl g xs :
+  lrun_wraps (V fs true fl) g sst0 (dev_events xs) = false -> no_prune (dev_events xs) = true ->
+  never_restored (dev_events xs) = true ->
+  strict false (snd (drun (V fs true fl) g dst0 xs)) = true.
+Proof.
+  intros Hw NP NR. pose proof (arrived_prefix fs fl g xs) as P. pose proof (drun_issued (V fs true fl) g xs dst0) as Q.
+  destruct (drun (V fs true fl) g dst0 xs) as [[d' iss] arr]. cbn [fst snd d_comp dst0] in *.
+  apply (strict_prefix arr false (d_held d')). rewrite P, Q.
+  apply strict_issued; assumption.
+Qed.
+
+Lemma delivered_monotone_sent fl g xs :
+  lrun_wraps (V true true fl) g sst0 (dev_events xs) = false -> no_prune (dev_events xs) = true ->
+  nondecreasing_sent c4z (snd (drun (V true true fl) g dst0 xs)) = true.
+Proof.
+  intros Hw NP. pose proof (arrived_prefix true fl g xs) as P. pose proof (drun_issued (V true true fl) g xs dst0) as Q.
+  destruct (drun (V true true fl) g dst0 xs) as [[d' iss] arr]. cbn [fst snd d_comp dst0] in *.
+  apply (sent_prefix arr c4z (d_held d')). rewrite P, Q.
+  apply monotone_sent; assumption.
+Qed.
+
+(* HEAD: when no call is delayed, arrival order = issue order *)
+Definition no_delay (xs : list dev) : bool :=
+  forallb (fun x => match x with DHold true => false | _ => true end) xs.
+
+Lemma issue_no_delay v os : fix_order v = false \/ True -> issue v false [] os = ([], os).
+Proof.
+  intros _. induction os as [|o r IH]; cbn [issue]; [reflexivity|].
+  unfold issue1. cbn [is_nil negb orb]. replace (delayed false o) with false by (destruct o; reflexivity).
+  destruct (fix_order v); rewrite IH; reflexivity.
+Qed.
+
+Lemma arrived_eq_issued v g : forall xs d,
+  no_delay xs = true -> d_hs d = false -> d_held d = [] ->
+  snd (drun v g d xs) = snd (fst (drun v g d xs)).
+Proof.
+  induction xs as [|x r IH]; intros d ND H1 H2; cbn [drun]; [reflexivity|].
+  cbn [no_delay forallb] in ND. apply andb_true_iff in ND as [N1 N2].
+  destruct x as [ev|hs|]; cbn [dstep].
+  - destruct (lstep v g (d_comp d) ev) as [s' os]. rewrite H1, H2.
+    rewrite (issue_no_delay v os (or_intror I)).
+    specialize (IH (Dst s' false []) N2 eq_refl eq_refl).
+    destruct (drun v g (Dst s' false []) r) as [[d2 i2] a2]. cbn [fst snd] in *. rewrite IH. reflexivity.
+  - destruct hs; [discriminate|].
+    specialize (IH (Dst (d_comp d) false (d_held d)) N2 eq_refl H2).
+    destruct (drun v g (Dst (d_comp d) false (d_held d)) r) as [[d2 i2] a2]. cbn [fst snd app] in *. exact IH.
+  - rewrite H2. specialize (IH (Dst (d_comp d) (d_hs d) []) N2 H1 eq_refl).
+    destruct (drun v g (Dst (d_comp d) (d_hs d) []) r) as [[d2 i2] a2]. cbn [fst snd app] in *. exact IH.
+Qed.
 (* ---------- repeated notifications are silent (any reachable or unreachable state) ---------- *)
-Lemma after_announce_silent g s ev i h j k :
+Lemma after_announce_silent fs fo fl g s ev i h j k :
   (ev = EActive i h \/ ev = ERestored i h) ->
-  let s' := fst (lstep repaired g s ev) in
-  snd (lstep repaired g s' (EActive j k)) = [] /\ snd (lstep repaired g s' (ERestored j k)) = [].
+  let s' := fst (lstep (V fs fo fl) g s ev) in
+  snd (lstep (V fs fo fl) g s' (EActive j k)) = [] /\ snd (lstep (V fs fo fl) g s' (ERestored j k)) = [].
 Proof.
   intros [E|E]; subst ev; cbn [lstep].
   - destruct (inb s) eqn:IB.
@@ -387,9 +637,9 @@ Proof.
   - destruct (cache s); cbn; auto.
 Qed.
 
-Lemma after_release_silent g s sn sn' :
-  let s' := fst (lstep repaired g s (EReleased sn)) in
-  s' = sst0 /\ snd (lstep repaired g s' (EReleased sn')) = [].
+Lemma after_release_silent fs fo fl g s sn sn' :
+  let s' := fst (lstep (V fs fo fl) g s (EReleased sn)) in
+  s' = sst0 /\ snd (lstep (V fs fo fl) g s' (EReleased sn')) = [].
 Proof. cbn [lstep]. destruct (cache s); cbn; auto. Qed.
 
 Lemma restore_never_starts v g s i h : snd (lstep v g s (ERestored i h)) = [].
@@ -492,20 +742,20 @@ Lemma c4_any2_false_intro f a b :
   f (rxp a) (rxp b) = false -> f (txp a) (txp b) = false -> c4_any2 f a b = false.
 Proof. intros H1 H2 H3 H4. unfold c4_any2. rewrite H1, H2, H3, H4. reflexivity. Qed.
 
-Lemma apply_bound B T e st :
+Lemma apply_bound fo fl B T e st :
   sinv B e -> c4_lt_W st -> c4_le st T -> c4_lt_W (c4_add B T) ->
-  apply_wraps repaired e st = false /\
-  sinv (c4_add B T) (fst (apply repaired e st)) /\
-  c4_le (prior (fst (apply repaired e st))) (snd (apply repaired e st)) /\
-  c4_le (snd (apply repaired e st)) (c4_add B T).
+  apply_wraps (V false fo fl) e st = false /\
+  sinv (c4_add B T) (fst (apply (V false fo fl) e st)) /\
+  c4_le (prior (fst (apply (V false fo fl) e st))) (snd (apply (V false fo fl) e st)) /\
+  c4_le (snd (apply (V false fo fl) e st)) (c4_add B T).
 Proof.
   intros (Hb & Hp & Hl) Lst LT LW.
   unfold apply, apply_wraps. cbn [fst snd].
-  assert (E : base (rebase repaired e st) = c4z /\
-              c4_le (prior (rebase repaired e st)) (last e) /\ last (rebase repaired e st) = last e).
-  { unfold rebase. destruct (regressed repaired e st); cbn [base prior last]; (split; [|split]); auto; try c4crush. }
+  assert (E : base (rebase (V false fo fl) e st) = c4z /\
+              c4_le (prior (rebase (V false fo fl) e st)) (last e) /\ last (rebase (V false fo fl) e st) = last e).
+  { unfold rebase. destruct (regressed (V false fo fl) e st); cbn [base prior last floor fix_sent V]; (split; [|split]); auto; try c4crush. }
   destruct E as (E1 & E2 & E3).
-  set (e' := rebase repaired e st) in *.
+  set (e' := rebase (V false fo fl) e st) in *.
   assert (C : cum e' st = c4_add st (prior e')).
   { unfold cum. rewrite E1. destruct st as [a b c d], (prior e') as [pa pb pc pd] eqn:PE.
     destruct (last e) as [la lb lc ld], B as [ba bb bc bd], T as [ta tb tc td].
@@ -525,19 +775,19 @@ Proof.
   - rewrite C. c4crush.
 Qed.
 
-Lemma report_bound B T tick e sn :
+Lemma report_bound fo fl B T tick e sn :
   sinv B e -> c4_le (snap_sum (ifs sn)) T -> c4_lt_W (c4_add B T) ->
-  report_wraps repaired false tick e sn = false /\
-  sinv (c4_add B T) (fst (report repaired false tick e sn)) /\
-  c4_le (prior (fst (report repaired false tick e sn))) (snd (report repaired false tick e sn)) /\
-  c4_le (snd (report repaired false tick e sn)) (c4_add B T).
+  report_wraps (V false fo fl) false tick e sn = false /\
+  sinv (c4_add B T) (fst (report (V false fo fl) false tick e sn)) /\
+  c4_le (prior (fst (report (V false fo fl) false tick e sn))) (snd (report (V false fo fl) false tick e sn)) /\
+  c4_le (snd (report (V false fo fl) false tick e sn)) (c4_add B T).
 Proof.
   intros I LT LW. unfold report, report_wraps, reading. cbn [andb].
   destruct (lookup_stats (ifs sn) (ifx e)) as [st|] eqn:L.
   - apply apply_bound; auto.
     + eapply lookup_stats_lt; exact L.
     + pose proof (lookup_stats_le (ifs sn) (ifx e) st L). c4crush.
-  - cbn [fst snd]. destruct I as (I1 & I2 & I3). split; [reflexivity|split; [|split]].
+  - cbn [fst snd floor fix_sent V]. destruct I as (I1 & I2 & I3). split; [reflexivity|split; [|split]].
     + unfold sinv. split; [exact I1|split; [exact I2|c4crush]].
     + exact I2.
     + c4crush.
@@ -548,9 +798,9 @@ Definition ginv (B : c4) (s : sst) : Prop :=
 
 Lemma c4_le_refl a : c4_le a a. Proof. c4crush. Qed.
 
-Lemma step_bound B s ev :
+Lemma step_bound fo fl B s ev :
   ginv B s -> c4_lt_W (c4_add B (ev_sum ev)) ->
-  lstep_wraps repaired false s ev = false /\ ginv (c4_add B (ev_sum ev)) (fst (lstep repaired false s ev)).
+  lstep_wraps (V false fo fl) false s ev = false /\ ginv (c4_add B (ev_sum ev)) (fst (lstep (V false fo fl) false s ev)).
 Proof.
   intros [Ic Id] LW.
   assert (MB : c4_le B (c4_add B (ev_sum ev))) by c4crush.
@@ -564,20 +814,20 @@ Proof.
   destruct ev as [i h|i h|sn|sn ok| |past]; cbn [lstep lstep_wraps cache db inb ev_sum] in *.
   - split; [destruct ca; reflexivity|].
     destruct ib; [split; cbn; auto|].
-    destruct ca as [e|]; cbn [fix_active repaired fst]; split; cbn [cache db]; intros x Hx; inversion Hx; subst; auto.
+    destruct ca as [e|]; cbn [fix_active V fst]; split; cbn [cache db]; intros x Hx; inversion Hx; subst; auto.
     specialize (Ic' e eq_refl). unfold sinv, confirm in *; cbn. exact Ic'.
   - split; [destruct ca; reflexivity|].
     destruct ca as [e|]; cbn [fst]; split; cbn [cache db]; intros x Hx; try (inversion Hx; subst); auto.
     specialize (Ic' e eq_refl). unfold sinv, confirm in *; cbn. exact Ic'.
   - destruct ca as [e|].
-    + destruct (report_bound B (snap_sum (ifs sn)) false e sn (Ic e eq_refl) (c4_le_refl _) LW) as (R1 & _).
+    + destruct (report_bound fo fl B (snap_sum (ifs sn)) false e sn (Ic e eq_refl) (c4_le_refl _) LW) as (R1 & _).
       split; [exact R1|]. cbn. split; intros x Hx; discriminate.
     + split; [reflexivity|]. cbn. split; intros x Hx; discriminate.
   - destruct ca as [e|].
-    + destruct (report_bound B (snap_sum (ifs sn)) true e sn (Ic e eq_refl) (c4_le_refl _) LW) as (R1 & R2 & R3 & R4).
+    + destruct (report_bound fo fl B (snap_sum (ifs sn)) true e sn (Ic e eq_refl) (c4_le_refl _) LW) as (R1 & R2 & R3 & R4).
       destruct ib; cbn [andb].
       * split; [exact R1|].
-        destruct (report repaired false true e sn) as [e' c] eqn:RP. cbn [fst snd] in *.
+        destruct (report (V false fo fl) false true e sn) as [e' c] eqn:RP. cbn [fst snd] in *.
         destruct ok; cbn [fst]; split; cbn [cache db]; intros x Hx; try (inversion Hx; subst); auto;
           destruct R2 as (Q1 & Q2 & Q3); unfold sinv; cbn [base prior last]; (split; [|split]); auto.
       * split; [reflexivity|]. cbn. split; auto.
@@ -590,26 +840,26 @@ Proof.
     destruct (pending e && past); cbn; split; auto; intros x Hx; discriminate.
 Qed.
 
-Lemma run_bound evs : forall s B,
-  ginv B s -> c4_lt_W (c4_add B (total_readings evs)) -> lrun_wraps repaired false s evs = false.
+Lemma run_bound fo fl evs : forall s B,
+  ginv B s -> c4_lt_W (c4_add B (total_readings evs)) -> lrun_wraps (V false fo fl) false s evs = false.
 Proof.
   induction evs as [|ev r IH]; intros s B I LW; cbn [lrun_wraps total_readings] in *; [reflexivity|].
   assert (LW1 : c4_lt_W (c4_add B (ev_sum ev))) by c4crush.
-  destruct (step_bound B s ev I LW1) as [S1 S2].
+  destruct (step_bound fo fl B s ev I LW1) as [S1 S2].
   rewrite S1. cbn [orb]. eapply IH; [exact S2|]. c4crush.
 Qed.
 
-Lemma no_wrap_if_total_small evs :
-  c4_lt_W (total_readings evs) -> lrun_wraps repaired false sst0 evs = false.
+Lemma no_wrap_if_total_small fo fl evs :
+  c4_lt_W (total_readings evs) -> lrun_wraps (V false fo fl) false sst0 evs = false.
 Proof.
-  intros H. apply (run_bound evs sst0 c4z).
+  intros H. apply (run_bound fo fl evs sst0 c4z).
   - split; intros x Hx; discriminate.
   - c4crush.
 Qed.
 
-Lemma monotone_total evs :
+Lemma monotone_total fo fl evs :
   c4_lt_W (total_readings evs) -> no_prune evs = true ->
-  nondecreasing c4z (outputs (snd (lrun repaired false sst0 evs))) = true.
+  nondecreasing c4z (outputs (snd (lrun (V false fo fl) false sst0 evs))) = true.
 Proof. intros H NP. apply monotone; [apply no_wrap_if_total_small; exact H|exact NP]. Qed.
 
 (* ---------- the RADIUS wire encoding of the counters ---------- *)
@@ -650,8 +900,8 @@ Proof.
   rewrite andb_true_iff. intros [H1 H2]. rewrite through_wire_id by exact H1. rewrite IH by exact H2. reflexivity.
 Qed.
 
-Lemma monotone_on_wire g evs :
-  lrun_wraps repaired g sst0 evs = false -> no_prune evs = true ->
-  forallb (fun o => wire_range (counters_of o)) (outputs (snd (lrun repaired g sst0 evs))) = true ->
-  nondecreasing c4z (map through_wire (outputs (snd (lrun repaired g sst0 evs)))) = true.
+Lemma monotone_on_wire fs fo fl g evs :
+  lrun_wraps (V fs fo fl) g sst0 evs = false -> no_prune evs = true ->
+  forallb (fun o => wire_range (counters_of o)) (outputs (snd (lrun (V fs fo fl) g sst0 evs))) = true ->
+  nondecreasing c4z (map through_wire (outputs (snd (lrun (V fs fo fl) g sst0 evs)))) = true.
 Proof. intros Hw NP R. rewrite map_through_wire by exact R. apply monotone; assumption. Qed.
